@@ -282,20 +282,20 @@ def nb_cases(tier):
                 for sub in itertools.combinations(range(len(pairs)), r):
                     if tier == "quick" and r not in (0, 1, 2, len(pairs)):
                         continue
-                    yield dict(kind="nb", comb=comb, genpairs=gp, explicit=list(sub), gridshift=(r + comb) % 3)
+                    yield dict(kind="nb", comb=comb, genpairs=gp, explicit=list(sub), gridshift=(r + comb) % 6)
 
 
 def check_nb(case, stats):
     viols = []
     types = ["TA", "TB", "TC"]
     pairs = list(itertools.combinations_with_replacement(types, 2))
-    grid = [(0.0026, 2.6e-06), (0.15, 0.0001), (1.0, 1.0), (3.5, 0.02)]
-    self_par = {t: grid[(i + case["gridshift"]) % 4] for i, t in enumerate(types)}
+    grid = [(0.0026, 2.6e-06), (0.00012, 6e-09), (0.15, 0.0001), (2e-09, 3e-15), (1.0, 1.0), (3.5, 0.02)]   # incl. hydrogen-like tiny C12 / C6
+    self_par = {t: grid[(i + case["gridshift"]) % 6] for i, t in enumerate(types)}
     at = [f"{t} 12.0 0.0 A {self_par[t][0]} {self_par[t][1]}" for t in types]
     expl = {}
     for n, pi in enumerate(case["explicit"]):
         a, b = pairs[pi]
-        expl[frozenset((a, b))] = grid[(n + 1 + case["gridshift"]) % 4]
+        expl[frozenset((a, b))] = grid[(n + 1 + case["gridshift"]) % 6]
     nb_lines = []
     for n, pi in enumerate(case["explicit"]):
         a, b = pairs[pi]
